@@ -189,6 +189,8 @@ def hostile_cfg(rng):
     elif r < 0.25:
         cfg["clean"] = False
     if rng.random() < 0.3:
+        cfg["db_delay"] = {"p": rng.choice([0.1, 0.4]), "max": 0.003, "seed": rng.randrange(1 << 30)}
+    if rng.random() < 0.3:
         cfg["thread_delay"] = {"p": rng.choice([0.3, 1.0]), "max": 0.02, "seed": rng.randrange(1 << 30)}
     return cfg
 
